@@ -132,6 +132,35 @@ def check_batch(o):
         if not ok:
             bad.append(("the model of the same data in units of %g has %d components (eigenvalues %s), the model in units of 1 has %d (%s)" % (
                 unit, mu.n_components, (mu._eigenvalues / unit / unit).round(6).tolist(), base.n_components, base._eigenvalues.round(6).tolist()), {}, None))
+    # ... and the same data stored as whole numbers (in the unit that makes every entry integral) or as float32 is the same data
+    unit = next((u for u in (1, 2, 3, 4, 5, 6, 8, 10, 12, 20, 30, 60, 100, 120) if np.allclose(X * u, np.round(X * u), rtol=0, atol=1e-9)), None)
+    if unit is not None:
+        from menpo.math import pca as raw_pca
+
+        Xi = np.round(X * unit)
+        for dt in (np.int64, np.int32, np.float32):
+            try:
+                mi = PCAVectorModel(Xi.astype(dt), centre=centre, inplace=False)
+                e_raw, l_raw, m_raw = raw_pca(Xi.astype(dt), centre=centre, inplace=False)
+            except Exception as e:
+                bad.append(("PCA of the same data stored as %s raised %s" % (np.dtype(dt).name, type(e).__name__), {"msg": str(e)[:120]}, None))
+                continue
+            tol = 1e-4 if dt is np.float32 else 1e-9
+            kb = base.n_components
+            top = max(1.0, float(base._eigenvalues.max(initial=0.0)) * unit * unit)
+            ev = np.asarray(mi._eigenvalues, dtype=float)
+            # (single precision cannot tell a zero variance from rounding noise at the fixed eps of 1e-10: directions beyond the
+            #  float64 model's are tolerated there when their variance is noise - accuracy, not the property)
+            count_ok = (mi.n_components == kb and len(l_raw) == kb) if dt is not np.float32 else \
+                (mi.n_components >= kb and len(l_raw) == mi.n_components and np.all(ev[kb:] <= 1e-5 * top))
+            ok = count_ok and \
+                np.allclose(ev[:kb], base._eigenvalues * unit * unit, rtol=tol, atol=tol * top) and \
+                np.allclose(np.asarray(l_raw, dtype=float), ev, rtol=tol, atol=tol * top) and \
+                np.allclose(np.asarray(mi._mean, dtype=float), base._mean * unit, rtol=0, atol=tol * max(1.0, float(np.abs(Xi).max()))) and \
+                np.allclose(np.asarray(m_raw, dtype=float), np.asarray(mi._mean, dtype=float), rtol=0, atol=tol * max(1.0, float(np.abs(Xi).max())))
+            if not ok:
+                bad.append(("the model of the same data stored as %s differs from the float64 model: %d components, mean %s; float64: %d components, mean %s" % (
+                    np.dtype(dt).name, mi.n_components, np.asarray(mi._mean, dtype=float).round(4).tolist(), base.n_components, (base._mean * unit).round(4).tolist()), {}, None))
     for tag, m in models:
         r = _check_model(m, n, mean, C, tag)
         if r:
